@@ -35,7 +35,9 @@ func runC14(c *Ctx) {
 	if retry == nil {
 		return
 	}
-	isGet := func(call ssa.CallInstruction) bool { return invokeIs(call, endorsePkg, "VersionControl", "GetChangeOps") }
+	isGet := func(call ssa.CallInstruction) bool {
+		return invokeIs(call, endorsePkg, "VersionControl", "GetChangeOps")
+	}
 	attempts := c.funcsCalling(isGet)
 	var attemptFns []*ssa.Function
 	for _, f := range attempts {
